@@ -29,7 +29,7 @@ extern "C" __attribute__((used)) const char *__asan_default_options() {
   return "exitcode=77:detect_leaks=0:abort_on_error=0:allocator_may_return_null=1:detect_stack_use_after_return=0:handle_segv=1:handle_abort=1";
 }
 extern "C" __attribute__((used)) const char *__tsan_default_options() {
-  return "exitcode=66:report_thread_leaks=0:detect_deadlocks=0:report_signal_unsafe=0:halt_on_error=1:second_deadlock_stack=0:report_destroy_locked=0:history_size=4:handle_abort=1";
+  return "exitcode=66:report_thread_leaks=0:detect_deadlocks=0:report_signal_unsafe=0:halt_on_error=1:second_deadlock_stack=0:report_destroy_locked=0:history_size=7:handle_abort=1";
 }
 extern "C" __attribute__((used)) const char *__ubsan_default_options() { return "halt_on_error=1:print_stacktrace=1"; }
 
@@ -132,10 +132,14 @@ static Prng g_rng;
 static uint64_t g_steps, g_seq, g_sig, g_now_ns;
 static int g_spurious_left;
 static uint64_t g_cp[16];
-static uint32_t *g_trace_out = nullptr;
-static size_t g_trace_len = 0, g_trace_cap = 0, g_trace_pos = 0;
-static SimEvent *g_log = nullptr;
-static size_t g_log_len = 0, g_log_cap = 0;
+// Fixed buffers in .bss: the simulator core must not call malloc/realloc/free (the sanitizers
+// intercept them and ThreadSanitizer would see the core's own bookkeeping as unsynchronised writes).
+#define TRACE_CAP (1u << 21)
+#define LOG_CAP (1u << 21)
+static uint32_t g_trace_out[TRACE_CAP];
+static size_t g_trace_len = 0, g_trace_pos = 0;
+static SimEvent g_log[LOG_CAP];
+static size_t g_log_len = 0;
 static void (*g_fatal_cb)(const SimResult *) = nullptr;
 static __thread Thr *tl_self = nullptr;
 
@@ -172,15 +176,14 @@ static void ev(int op, int obj, int aux) {
   g_sig = h;
   g_seq++;
   if (g_cfg.keep_log) {
-    if (g_log_len == g_log_cap) { g_log_cap = g_log_cap ? g_log_cap * 2 : 4096; g_log = (SimEvent *)realloc(g_log, g_log_cap * sizeof(SimEvent)); }
+    if (g_log_len >= LOG_CAP) return; // signature still covers everything
     SimEvent e; e.step = (uint32_t)g_steps; e.thread = (uint16_t)t; e.op = (uint16_t)op; e.obj = obj; e.aux = aux;
     g_log[g_log_len++] = e;
   }
 }
 
 static void trace_push(uint32_t d) {
-  if (g_trace_len == g_trace_cap) { g_trace_cap = g_trace_cap ? g_trace_cap * 2 : 4096; g_trace_out = (uint32_t *)realloc(g_trace_out, g_trace_cap * sizeof(uint32_t)); }
-  g_trace_out[g_trace_len++] = d;
+  if (g_trace_len < TRACE_CAP) g_trace_out[g_trace_len++] = d;
 }
 // next decision in [0,n): from the explicit trace when replaying, else from `fresh`
 static uint32_t decide(uint32_t n, uint32_t fresh) {
@@ -376,6 +379,22 @@ static void sched(Thr *self) {
       break;
     }
     case ST_LOWFIRST: { int best = 0; for (int k = 1; k < nplain; k++) if (list[k] < list[best]) best = k; fresh = (uint32_t)best; break; }
+    case ST_PFRR: { // producer (T0) first, the other threads round robin: a fast producer ahead of slow workers
+      int best = -1, wrap = -1, t0 = -1;
+      for (int k = 0; k < nplain; k++) {
+        if (list[k] == 0) { t0 = k; continue; }
+        if (list[k] > self->ord && (best < 0 || list[k] < list[best])) best = k;
+        if (wrap < 0 || list[k] < list[wrap]) wrap = k;
+      }
+      fresh = (uint32_t)(t0 >= 0 ? t0 : (best >= 0 ? best : wrap));
+      break;
+    }
+    case ST_RR: { // round robin: the enabled thread with the next ordinal after the current one (maximal interleaving)
+      int best = -1, wrap = 0;
+      for (int k = 0; k < nplain; k++) { if (list[k] > self->ord && (best < 0 || list[k] < list[best])) best = k; if (list[k] < list[wrap]) wrap = k; }
+      fresh = (uint32_t)(best >= 0 ? best : wrap);
+      break;
+    }
     case ST_HIGHFIRST: { int best = 0; for (int k = 1; k < nplain; k++) if (list[k] > list[best]) best = k; fresh = (uint32_t)best; break; }
     }
     idx = (int)decide((uint32_t)n, fresh);
@@ -708,4 +727,38 @@ extern "C" void __sanitizer_cov_trace_pc_guard(uint32_t *guard) {
   g_res.preempts++;
   ev(OP_PREEMPT, (int)*guard, 0);
   sched(s);
+}
+
+// ---------------------------------------------------------------------------------------------
+// death callback (runs while a sanitizer is dying: plain C, no instrumented code, no allocation)
+// ---------------------------------------------------------------------------------------------
+extern "C" void __sanitizer_set_death_callback(void (*)(void)) __attribute__((weak));
+static char g_death_spec_buf[8192];
+static volatile int g_death_has_spec = 0;
+static unsigned long long g_death_run_no = 0;
+static int g_death_out_fd = 1;
+static void sim_death_cb(void) {
+  g_active = 0; // no more scheduling points
+  if (!g_death_has_spec) return;
+  static char line[65536];
+  size_t p = 0;
+  p += (size_t)snprintf(line + p, sizeof line - p, "\n{\"partial\":%llu,\"steps\":%llu,\"spec\":\"", g_death_run_no, (unsigned long long)g_seq);
+  for (const char *c = g_death_spec_buf; *c && p + 8 < sizeof line; c++) {
+    if (*c == '"' || *c == '\\') line[p++] = '\\';
+    line[p++] = ((unsigned char)*c < 0x20) ? ' ' : *c;
+  }
+  p += (size_t)snprintf(line + p, sizeof line - p, "\",\"trace\":\"");
+  size_t n = g_trace_len;
+  while (n && g_trace_out[n - 1] == 0) n--;
+  for (size_t i = 0; i < n && p + 16 < sizeof line; i++) p += (size_t)snprintf(line + p, sizeof line - p, i ? ":%u" : "%u", g_trace_out[i]);
+  p += (size_t)snprintf(line + p, sizeof line - p, "\"}\n");
+  ssize_t w = write(g_death_out_fd, line, p); (void)w;
+}
+extern "C" void sim_install_death_cb(void) { if (&__sanitizer_set_death_callback) __sanitizer_set_death_callback(sim_death_cb); }
+extern "C" void sim_set_death_info(const char *spec, unsigned long long run, int fd) {
+  g_death_has_spec = 0;
+  if (!spec) return;
+  strncpy(g_death_spec_buf, spec, sizeof g_death_spec_buf - 1); g_death_spec_buf[sizeof g_death_spec_buf - 1] = 0;
+  g_death_run_no = run; g_death_out_fd = fd;
+  g_death_has_spec = 1;
 }
